@@ -65,11 +65,18 @@ def integration_and_binning(ctx, lentil, rng):
         if rng.random() < 0.12:
             w = [edges[0] - 2, edges[-1] + 2]              # no sample inside the span of the bins: one straight line across all of them
         v = [Fr(rng.randint(0, 12), 4) for _ in w]
+        line = rng.random() < 0.08
+        if line:
+            # a narrow emission line on a fine grid: non-zero only at samples that are neither bin edges nor bin centres.  It lies inside
+            # the span of the centres, so the power-preserving bins must add up to its integral
+            w = [edges[0] - 1 + Fr(k, 4) for k in range(int((edges[-1] - edges[0] + 2) * 4) + 1)]
+            c_mid = centres[len(centres) // 2 - 1] if len(centres) > 2 else centres[0]
+            v = [Fr(3) if x in (c_mid + Fr(1, 4), c_mid + Fr(1, 8) * 0 + Fr(1, 4) * 1) else Fr(0) for x in w]
         if rng.random() < 0.15:
             # a pass band elsewhere: the spectrum is zero over the whole span of the bins (signal only in the outer samples, if any)
             v = [Fr(0) if edges[0] <= x <= edges[-1] else Fr(3) for x in w]
         cases.append({'k': 'bin', 's': sp.spec_json('nm', None, w, v), 'c': [sp.rj(c) for c in centres], 'ends': ends, 'fill': [0, 1],
-                      'linear_in_bins': ends == 'symmetric', 'odd_spacing': d % 2 == 1})
+                      'linear_in_bins': ends == 'symmetric' and not line, 'odd_spacing': d % 2 == 1, 'line': line})
     for i, c in enumerate(cases):
         c['id'] = i
     exp, res = eval_cases('MC_Spectrum', cases, nparts=10, timeout=900)
@@ -164,7 +171,8 @@ def integration_and_binning(ctx, lentil, rng):
                 bp = s.bin(centres, interp_method=m, ends=c['ends'], preserve_power=True, waveunit='nm')
                 span = s.integrate(min(centres), max(centres), method=m)
                 if not np.all(np.isfinite(bp)) or abs(bp.sum() - span) > 1e-9 * (1 + abs(span)) or np.any(bp < -1e-12):
-                    ctx.violation(dict(sig, kind='bin-preserve-power'), {'sum': float(bp.sum()), 'integral_over_span': float(span)}, case={'case': c})
+                    ctx.violation(dict(sig, kind='bin-preserve-power', bins_all_zero=bool(not np.any(bp)), spectrum_zero_at_every_edge_and_centre=bool(c.get('line'))),
+                                  {'sum': float(bp.sum()), 'integral_over_span': float(span)}, case={'case': c})
                 d_ = centres[1] - centres[0]
                 e_lo, e_hi = (centres[0] - d_ / 2, centres[-1] + d_ / 2) if c['ends'] == 'symmetric' else (centres[0], centres[-1])
                 interior = float(s.wave[0]) < e_lo and e_hi < float(s.wave[-1])
